@@ -9,6 +9,8 @@ record holds; ops `script_tmax`, `export_layout`.
 Oracle (independent of the model's loop): from the logged step times alone — which step covers which request /
 multiple of the interval, one record per step, every step / none, strict monotonicity, shapes, order against
 RDSystem.state, t=0 record, fixed-step clock n*dt and completion at the first step beyond t_max.
+Derived-script stream (c09_child.py): the same oracle and the same model op on scripts obtained by copy() / from a trajectory and
+edited afterwards; the requested times, dt and t_max (explicit, or by default the last requested time) are the CALLER's.
 """
 import math
 from fractions import Fraction
@@ -23,7 +25,11 @@ GEN_GROUPS = ["EngineCpp", "IndexPy", "ScriptPy", "EngineLife"]
 RULE = ("scripts generated from the repository's dictionary forms: 3 engines x grid/graph x 4 policies x request-list styles "
         "(grid, cluster inside one step, duplicates, late start, beyond t_max, single 0, sparse, empty) x dyadic / non-dyadic dt x "
         "explicit / default t_max x time quantities in 7 units x optional explicit sample() calls; each driven step by step to "
-        "completion (+2 further iterations); non-trivial when at least 2 steps were made; distinct by the whole script")
+        "completion (+2 further iterations); interval ratios t/interval beyond 2^31 and beyond 2^53 / 2^63 / 2^64; DERIVED scripts: "
+        "the script that is run was obtained from another script object (copy(), deepcopy, trajectory.script after a simulation or "
+        "right after setup, chains of these) and then edited through its setters (request list with a shorter / longer horizon, time "
+        "step, t_max explicit <-> default, in shuffled order), judged against the quantities the caller assigned; "
+        "non-trivial when at least 2 steps were made; distinct by the whole script")
 ASSUMPTIONS = [
     "Gillespie with init_state_processing='none' on non-integer amounts (accepted by the setters, but outside the stochastic method: negative "
     "amounts / propensities, clock running backwards, no completion — reported to the coordinator as a candidate finding) is only driven "
@@ -32,12 +38,23 @@ ASSUMPTIONS = [
     "float clock: for dyadic dt in seconds the clock n*dt is exact; otherwise times are compared to n*dt within 1e-9 relative and the completion step within +-1 as the statement allows",
     "floor(t/interval) in doubles equals the exact floor unless t/interval is within 1e-9 of an integer without being one (such cases are counted as ambiguous and skipped)",
 ]
-TRUSTED = ["life_child.py (sandboxed driver of the real engine)"]
+TRUSTED = ["life_child.py, c09_child.py (sandboxed drivers of the real engine)"]
 
 
-def make_job(rng, jid, option=None, **kw):
+# t / sampling_interval beyond the range of the integer types a floored quotient could be kept in: 2^53 (integers no longer
+# all representable in a double), 2^63 (long long), 2^64 (unsigned long long) — reached within the first steps of 1 s
+EXTREME_INTERVALS = [1e-16, 2.0 ** -54, 1e-19, 2.0 ** -63, 2.0 ** -64, 1e-20, 2.0 ** -70, 1e-30]
+
+
+def make_job(rng, jid, option=None, extreme_ratio=False, **kw):
     option = option or rng.choice(lc.OPTIONS)
     S, info = lc.gen_script(rng, option, **kw)
+    if extreme_ratio:
+        # the huge-ratio script (dt = 1 s, on_interval, times in seconds) with a still smaller interval
+        iv = rng.choice(EXTREME_INTERVALS)
+        S["kw"]["sampling_interval"] = iv
+        info["expect"]["interval"] = iv
+        info["extreme_ratio"] = True
     size = info["nsp"] * info["n"]
     max_it = 400
     samples = []
@@ -326,6 +343,201 @@ def oracle(job, ob):
     return bad
 
 
+# ---------------------------------------------------------------------------------------------
+# DERIVED scripts: the object that is run was obtained from another script object through the package's own routes
+# (copy(), deepcopy, the script kept in a trajectory), then edited through its setters.  Ground truth (requested times,
+# time step, t_max explicit or "default" = last requested time) is what the CALLER asked for, computed here.
+# ---------------------------------------------------------------------------------------------
+DERIVATIONS = [["copy"], ["traj"], ["setup_traj"], ["deepcopy"], ["copy", "copy"], ["traj", "copy"], ["copy", "traj"], ["copy"], ["traj"]]
+
+
+def make_derived_job(rng, jid, option, policy):
+    kw = dict(units=False, max_steps=40, policy=policy, zero_tmax=False)
+    if option == "gillespie":
+        kw["mode"] = "auto"
+    if rng.random() < 0.7:
+        kw["default_tmax"] = True
+    S, info = lc.gen_script(rng, option, **kw)
+    bkw = {k: v for k, v in S["kw"].items() if not k.startswith("__")}
+    ts0, dt0 = list(bkw["t_sample"]), bkw["time_step"]
+    tm0 = bkw.get("t_max")                       # None: "default"
+    hint = (tm0 if tm0 is not None else ts0[-1]) or dt0 * 8
+    edits = []
+    dt1 = dt0
+    if rng.random() < 0.25:
+        dt1 = dt0 * rng.choice([2.0, 0.5])
+        edits.append(["time_step", dt1])
+    # t_max of the derived script: stays as it is (mostly), or explicit <-> "default"
+    r = rng.random()
+    if tm0 is None:
+        tm1 = None if r < 0.8 else dt1 * (rng.randint(1, 60) + rng.choice([0.0, 0.5]))
+    else:
+        tm1 = None if r < 0.5 else tm0
+    if tm1 != tm0:
+        edits.append(["t_max", "default" if tm1 is None else tm1])
+    # another request list (shorter, longer, same horizon); kept as it is now and then
+    ts1 = ts0
+    if rng.random() < 0.85 or (tm1 is None and not ts0):
+        for _ in range(50):
+            cand, style = lc.gen_tsamples(rng, dt1, max(hint, dt1) * rng.choice([0.5, 1.0, 2.0, 3.0]))
+            horizon = tm1 if tm1 is not None else (cand[-1] if cand else None)
+            if horizon is not None and horizon / dt1 <= 380 and (cand or tm1 is not None):
+                ts1 = cand
+                info["style"] = style
+                break
+        if ts1 is not ts0:
+            edits.append(["t_sample", ts1])
+    if tm1 is None and (not ts1 or ts1[-1] / dt1 > 380):
+        tm1 = dt1 * 20.5
+        edits = [e for e in edits if e[0] != "t_max"] + [["t_max", tm1]]
+    rng.shuffle(edits)
+    tmax = tm1 if tm1 is not None else ts1[-1]
+    derive = rng.choice(DERIVATIONS)
+    info.update(explicit_tmax=tm1 is not None, expect=None, samples=[], pre_sample=0, reuse=False, via="iterate", poll_k=None,
+                derived=derive, edited=[e[0] for e in edits], fractional_none=False,
+                truth={"tsamples": [float(t) for t in ts1], "tmax": float(tmax), "dt": float(dt1), "interval": float(bkw.get("sampling_interval", 1.0)),
+                       "source_tsamples": [float(t) for t in ts0], "source_tmax": float(tm0 if tm0 is not None else ts0[-1]) if (tm0 is not None or ts0) else None})
+    return {"id": jid, "kind": "derived", "option": option, "system": S["system"], "kw": bkw, "derive": derive, "edits": edits,
+            "max": 400, "past_end": 2, "size": info["nsp"] * info["n"], "info": info}
+
+
+def run_derived(jobs, parallel=4, chunk=8):
+    """{job id: {"status": "ok" | "crash:<rc>" | "timeout", "res": observations}} — each chunk of jobs in one sandboxed child"""
+    import json, os, tempfile, shutil
+    from concurrent.futures import ThreadPoolExecutor
+    so = common.build_engine("plain")
+    queue = [jobs[i:i + chunk] for i in range(0, len(jobs), chunk)]
+
+    def work(ch):
+        out = {}
+        pending = list(ch)
+        while pending:
+            d = tempfile.mkdtemp(prefix="c09_jobs_")
+            try:
+                spec = os.path.join(d, "jobs.json")
+                with open(spec, "w") as f:
+                    json.dump({"so": so, "jobs": [{k: v for k, v in j.items() if k != "info"} for j in pending]}, f)
+                status, stdout = common.run_child("import sys; sys.argv = ['c09_child', %r]; import c09_child; c09_child.main()" % spec,
+                                                  timeout=30 + 15 * len(pending), kind_env={"TMPDIR": d})
+            finally:
+                shutil.rmtree(d, ignore_errors=True)
+            got = {}
+            for ln in (stdout or "").splitlines():
+                if ln.startswith("R "):
+                    try:
+                        r = json.loads(ln[2:])
+                        got[r["job"]] = r
+                    except ValueError:
+                        pass
+            nxt, failed = [], False
+            for j in pending:
+                if j["id"] in got:
+                    out[j["id"]] = {"status": "ok", "res": got[j["id"]]}
+                elif not failed:
+                    if status == "ok":
+                        raise common.CheckBroken("c09_child finished without reporting job %s" % j["id"])
+                    out[j["id"]] = {"status": status, "res": None, "stderr": (stdout or "")[-600:]}
+                    failed = True
+                else:
+                    nxt.append(j)
+            pending = nxt
+        return out
+
+    final = {}
+    if parallel > 1 and len(queue) > 1:
+        with ThreadPoolExecutor(max_workers=parallel) as ex:
+            for out in ex.map(work, queue):
+                final.update(out)
+    else:
+        for ch in queue:
+            final.update(work(ch))
+    return final
+
+
+def derived_ob(job, r):
+    """observations of a derived-script job in the form the oracle reads; the time quantities of `meta` are the CALLER's"""
+    tr = job["info"]["truth"]
+    meta = dict(r["meta"], tsamples=tr["tsamples"], tmax=tr["tmax"], dt=tr["dt"], interval=tr["interval"])
+    return {"poll": None, "inits": [], "meta": meta, "T0": r["T0"], "X0": r["X0"], "T": r["T"], "U": r["U"], "X": r["X"], "C": r["C"],
+            "progress": r["progress"], "out": r["out"], "C0": r["C0"], "sims": [], "script_changed": []}
+
+
+def derived_oracle(job, r):
+    """what the caller reads back from the script objects: the requested times, and t_max = the explicit value or, left at its
+    default, the last requested time — on the derived script after its edits and on the source script after that"""
+    info = job["info"]
+    tr = info["truth"]
+    how = "script obtained by %s, then %s assigned" % (" + ".join(info["derived"]), ", ".join(info["edited"]) or "nothing")
+    bad = []
+    g = r["derived"]
+    if g["t_sample"] != tr["tsamples"]:
+        bad.append(("requests:derived", "requested times of the %s are not the ones assigned" % how, g["t_sample"][:8], tr["tsamples"][:8]))
+    if g["t_max"] != tr["tmax"]:
+        bad.append(("default-tmax:derived" if not info["explicit_tmax"] else "explicit-tmax:derived",
+                    "t_max of the %s is %r; %s" % (how, g["t_max"], "left at its default it is the last requested time" if not info["explicit_tmax"] else "it was assigned"),
+                    g["t_max"], tr["tmax"]))
+    s = r["source"]
+    if s["t_sample"] != tr["source_tsamples"] or (tr["source_tmax"] is not None and s["t_max"] != tr["source_tmax"]):
+        bad.append(("source-after-derived-edit", "requested times / t_max of the SOURCE script changed when the %s" % how,
+                    {"t_sample": s["t_sample"][:8], "t_max": s["t_max"]}, {"t_sample": tr["source_tsamples"][:8], "t_max": tr["source_tmax"]}))
+    return bad
+
+
+def derived_stream(ctx, n, ops, metas, tag="d"):
+    rng = ctx.rng
+    jobs = []
+    for i in range(n):
+        option = ["euler", "tauleap", "euler", "tauleap", "gillespie"][i % 5]
+        jobs.append(make_derived_job(rng, "%s%d" % (tag, i), option, lc.POLICIES[(i // 2) % 4]))
+    res = run_derived(jobs, parallel=ctx.n(6, 8))
+    for job in jobs:
+        judge_derived(ctx, job, res[job["id"]], ops, metas)
+
+
+def judge_derived(ctx, job, rr, ops=None, metas=None):
+    """-> list of failures (also reported to ctx when given)"""
+    info = job["info"]
+    case = {"job": job}
+    if ctx is not None:
+        ctx.count("derived_script_runs")
+        ctx.count("derived_by_%s" % "+".join(info["derived"]))
+        for e in info["edited"]:
+            ctx.count("derived_then_%s_assigned" % e)
+        ctx.count("derived_tmax_%s" % ("explicit" if info["explicit_tmax"] else "default"))
+    if rr["status"] != "ok":
+        bad = [("lifecycle:%s" % rr["status"].split(":")[0], "the run of a derived script %s" % rr["status"], {"status": rr["status"], "stderr": rr.get("stderr", "")[-400:]}, "every call returns")]
+    elif "raised" in rr["res"]:
+        bad = [("raised", "a call raised on a valid derived script: %s" % rr["res"]["raised"], rr["res"]["raised"], "no exception")]
+    else:
+        r = rr["res"]
+        ob = derived_ob(job, r)
+        bad = derived_oracle(job, r) + oracle(job, ob)
+        amb = any(b[0] == "ambiguous" for b in bad)
+        bad = [b for b in bad if b[0] != "ambiguous"]
+        if ctx is not None:
+            ctx.case(json_fp_derived(job), nontrivial=len(ob["T"]) >= 2,
+                     sample={"op": "lifecycle(derived)", "derived": info["derived"], "edited": info["edited"], "policy": info["policy"], "option": info["option"],
+                             "tsamples": ob["meta"]["tsamples"][:6], "dt": ob["meta"]["dt"], "tmax": ob["meta"]["tmax"], "recorded_t": ob["out"]["t"][:8]})
+            ctx.count("steps_total", len(ob["T"]))
+            ctx.count("records_total", ob["out"]["nsamples"])
+            if amb:
+                ctx.count("ambiguous")
+            elif ops is not None:
+                ops.append(model_op(job, ob))
+                metas.append((job, ob, case))
+    if ctx is not None:
+        if rr["status"] != "ok" or "raised" in (rr["res"] or {}):
+            ctx.case(("derived-crash", job["id"]), nontrivial=True)
+        for key, what, impl, exp in bad:
+            ctx.violation(key, what, case, impl=impl, expected=exp)
+    return bad
+
+
+def json_fp_derived(job):
+    import json
+    return json.dumps([job["system"], job["kw"], job["derive"], job["edits"], job["option"]], sort_keys=True, default=str)
+
+
 def model_op(job, ob):
     info, meta = job["info"], ob["meta"]
     T = [ob["T0"]] + ob["T"]
@@ -383,36 +595,8 @@ def compare_model(job, ob, ans):
     return None
 
 
-def run(ctx):
-    rng = ctx.rng
-    ctx.notes.append("tsample_cover is stated for requests that have a step at or after them: a Gillespie run that exhausts its events "
-                     "(a0 == 0) before a requested time <= t_max leaves it uncovered (counted as gillespie_exhausted_before_request)")
-    n = ctx.n(150, 5000)
-    jobs = []
-    for i in range(n):
-        option = lc.OPTIONS[i % 3]
-        kw = {}
-        r = rng.random()
-        if r < 0.2:
-            kw["static"] = True
-            kw["mode"] = "none"
-        policy = lc.POLICIES[(i // 3) % 4]
-        max_steps = 120 if option != "gillespie" else 40
-        if i % 25 == 7 or i % 25 == 20:
-            # t / sampling_interval beyond 2^31 (interval around 1 ns, a few steps of 1 s), grid and graph
-            kw = {"huge_ratio": True, "space_kind": ["grid", "graph"][(i // 25) % 2] if i % 25 == 7 else ["graph", "grid"][(i // 25) % 2]}
-            option = ["euler", "tauleap", "euler", "gillespie"][(i // 25) % 4] if i % 25 == 7 else "tauleap"
-        if i % 25 == 12:
-            kw = {"nearmiss": True}
-            option = ["euler", "tauleap"][(i // 25) % 2]
-        if i % 25 in (3, 16, 22):
-            kw = dict(kw, refused_edits=True)          # a refused assignment (caught) precedes the run
-        if i % 25 in (5, 18):
-            kw = dict(kw, tsample_after=True)          # default t_max, request list assigned after construction
-            option = ["euler", "tauleap"][(i // 25) % 2]
-        jobs.append(make_job(rng, "s%d" % i, option, policy=policy, max_steps=max_steps, **kw))
-    res = lc.run_jobs(jobs, kind="plain", chunk=ctx.n(10, 60), parallel=ctx.n(6, 8), stall=ctx.n(15, 40))
-    ops, metas = [], []
+def judge_main(ctx, jobs, res, ops, metas):
+    """oracle on every step-by-step job of the main stream; the non-ambiguous ones are queued for the model"""
     for job in jobs:
         r = res[job["id"]]
         info = job["info"]
@@ -427,7 +611,9 @@ def run(ctx):
             ctx.count("run_after_refused_assignment")
         if info.get("tsample_after"):
             ctx.count("t_sample_assigned_after_construction")
-        if info.get("huge_ratio"):
+        if info.get("extreme_ratio"):
+            ctx.count("interval_ratio_beyond_2^53_%s" % info["space"])
+        elif info.get("huge_ratio"):
             ctx.count("interval_ratio_beyond_2^31_%s" % info["space"])
         if info.get("poll_k"):
             ctx.count("driven_by_iterate_n_and_is_complete")
@@ -472,6 +658,9 @@ def run(ctx):
         if not amb:
             ops.append(model_op(job, ob))
             metas.append((job, ob, case))
+
+
+def compare_all(ctx, ops, metas):
     answers = ctx.model.run(ops) if ops else []
     for (job, ob, case), ans in zip(metas, answers):
         if ans is None:
@@ -482,6 +671,64 @@ def run(ctx):
         d = compare_model(job, ob, ans)
         if d is not None:
             ctx.disagree("lifecycle", case, d[0], d[1])
+
+
+def search(ctx):
+    """called when an obligation broke and no input failed yet: the special streams at a larger size — interval ratios beyond
+    2^31 / 2^53 / 2^63 on every engine and both space types, and scripts derived from other script objects then edited"""
+    rng = ctx.rng
+    jobs = []
+    for i in range(ctx.n(48, 240)):
+        option = lc.OPTIONS[i % 3]
+        kw = {"huge_ratio": True, "space_kind": ["grid", "graph"][(i // 3) % 2]}
+        jobs.append(make_job(rng, "x%d" % i, option, policy="on_interval", max_steps=40, extreme_ratio=(i % 4 != 3), **kw))
+    res = lc.run_jobs(jobs, kind="plain", chunk=ctx.n(10, 60), parallel=ctx.n(6, 8), stall=ctx.n(15, 40))
+    ops, metas = [], []
+    judge_main(ctx, jobs, res, ops, metas)
+    derived_stream(ctx, ctx.n(200, 1500), ops, metas, tag="xd")
+    compare_all(ctx, ops, metas)
+
+
+def run(ctx):
+    rng = ctx.rng
+    ctx.notes.append("tsample_cover is stated for requests that have a step at or after them: a Gillespie run that exhausts its events "
+                     "(a0 == 0) before a requested time <= t_max leaves it uncovered (counted as gillespie_exhausted_before_request)")
+    n = ctx.n(150, 5000)
+    jobs = []
+    for i in range(n):
+        option = lc.OPTIONS[i % 3]
+        kw = {}
+        r = rng.random()
+        if r < 0.2:
+            kw["static"] = True
+            kw["mode"] = "none"
+        policy = lc.POLICIES[(i // 3) % 4]
+        max_steps = 120 if option != "gillespie" else 40
+        if i % 25 == 7 or i % 25 == 20:
+            # t / sampling_interval beyond 2^31 (interval around 1 ns, a few steps of 1 s), grid and graph
+            kw = {"huge_ratio": True, "space_kind": ["grid", "graph"][(i // 25) % 2] if i % 25 == 7 else ["graph", "grid"][(i // 25) % 2]}
+            option = ["euler", "tauleap", "euler", "gillespie"][(i // 25) % 4] if i % 25 == 7 else "tauleap"
+        extreme = False
+        if i % 25 == 14:
+            # t / sampling_interval beyond 2^53 / 2^63 / 2^64, grid and graph, the three engines
+            kw = {"huge_ratio": True, "space_kind": ["grid", "graph"][(i // 25) % 2]}
+            option = ["euler", "tauleap", "gillespie", "tauleap", "euler", "gillespie"][(i // 25) % 6]
+            extreme = True
+        if i % 25 == 12:
+            kw = {"nearmiss": True}
+            option = ["euler", "tauleap"][(i // 25) % 2]
+        if i % 25 in (3, 16, 22):
+            kw = dict(kw, refused_edits=True)          # a refused assignment (caught) precedes the run
+        if i % 25 in (5, 18):
+            kw = dict(kw, tsample_after=True)          # default t_max, request list assigned after construction
+            option = ["euler", "tauleap"][(i // 25) % 2]
+        jobs.append(make_job(rng, "s%d" % i, option, policy=policy, max_steps=max_steps, extreme_ratio=extreme, **kw))
+    res = lc.run_jobs(jobs, kind="plain", chunk=ctx.n(10, 60), parallel=ctx.n(6, 8), stall=ctx.n(15, 40))
+    ops, metas = [], []
+    judge_main(ctx, jobs, res, ops, metas)
+    # ---- scripts derived from other script objects (copy / trajectory.script), edited, then run
+    derived_stream(ctx, ctx.n(40, 600), ops, metas)
+    compare_all(ctx, ops, metas)
     # ---- t_max default (model of the RDScript getter) and export layout
     import strengths as st
     from strengths.units import UnitArray
@@ -530,6 +777,12 @@ def replay(ctx, rec):
             return got == want, {"impl": got, "expected": want}
         return False, {"note": "unreadable replay record"}
     job = dict(case["job"])
+    if job.get("kind") == "derived":
+        rr = run_derived([job], parallel=1)[job["id"]]
+        bad = judge_derived(None, job, rr)
+        return (not bad), {"failures": [{"key": b[0], "what": b[1], "impl": b[2], "expected": b[3]} for b in bad],
+                           "derived": (rr["res"] or {}).get("derived"), "clock": ((rr["res"] or {}).get("T") or [])[:20],
+                           "recorded_t": (((rr["res"] or {}).get("out") or {}).get("t") or [])[:20], "truth": job["info"]["truth"]}
     res = lc.run_jobs([job], kind="plain", parallel=1)
     r = res[str(job["id"])]
     if r["status"] != "ok":
